@@ -280,7 +280,7 @@ def evaluate(ctx, prop, profile, scheds, m, mf, stats, tag, hb=None):
             w = l.split(" ")
             if w[0] == "call":
                 stats["call_" + w[2]] += 1
-            elif w[0] in ("close", "drain", "raw", "finish", "probe"):
+            elif w[0] in ("close", "drain", "raw", "finish", "probe", "early"):
                 stats["op_" + w[0]] += 1
                 if w[0] == "raw":
                     stats["raw_" + w[1]] += 1
